@@ -5,6 +5,7 @@ package main
 import (
 	"fmt"
 	"go/types"
+	"regexp"
 	"sort"
 	"strings"
 
@@ -15,7 +16,7 @@ func init() {
 	register(&propDef{
 		id: "C01", level: "other", run: runC01,
 		trusted: []string{"encoding/xml reads and writes tag-driven struct types symmetrically (same tags on both sides) and escapes CharData, attribute values and tag-driven string fields", "reflect.New(T).Interface() in the registry yields *T"},
-		explain: "Decides that the encode and the decode *tables* agree and that the unescaped output sinks are a closed, justified set — necessary conditions of the round trip: a registry row must name exactly the element its type's XMLName tag writes (R1), no two types may share a key (R2), an IQ row's type must be an IQPayload (R3); for every type with a hand-written decoder the attribute names written (struct tags, or the xml.Attr literals of a hand-written MarshalXML) equal the attribute names read, field by field (R4), every child element written has a decode case that stores into the same field and every decode case names the element its target type writes (R5); a serialised interface-typed field is assigned by a hand-written decoder of its parent (R6); strings reach the output unescaped only through the frozen list of raw sinks (R7); a MarshalXML that omits the whole element does so only when every serialised field is empty (R8). Not decided: equality of values, byte-identical re-serialisation, encoding/xml's own behaviour on tag-driven types (trusted), mixed content order in Node.",
+		explain: "Decides that the encode and the decode *tables* agree and that the unescaped output sinks are a closed, justified set — necessary conditions of the round trip: a registry row must name exactly the element its type's XMLName tag writes (R1), no two types may share a key (R2), an IQ row's type must be an IQPayload (R3); for every type with a hand-written decoder the attribute names written (struct tags, or the xml.Attr literals of a hand-written MarshalXML) equal the attribute names read, field by field (R4), every child element written has a decode case that stores into the same field and every decode case names the element its target type writes (R5); a serialised interface-typed field is assigned by a hand-written decoder of its parent (R6); strings reach the output unescaped only through the frozen list of raw sinks (R7); a MarshalXML that omits the whole element does so only when every serialised field is empty (R8), and what it writes depends on its fields only through plain emptiness tests (R9). Not decided: equality of values, byte-identical re-serialisation, encoding/xml's own behaviour on tag-driven types (trusted), mixed content order in Node.",
 	})
 }
 
@@ -85,6 +86,7 @@ func runC01(w *World, r *Report, tier string) {
 	r.Rule("R6", "interface-typed serialised fields are assigned by a hand-written UnmarshalXML of their parent type")
 	r.Rule("R7", "raw sinks: string fields reach the output unescaped only through the frozen table (innerxml/comment tags; element or attribute names built from a field in a hand-written MarshalXML)")
 	r.Rule("R8", "a hand-written MarshalXML returns nil without emitting a token only under conditions that read every serialised field")
+	r.Rule("R9", "emission guards: in a hand-written MarshalXML every branch condition that depends on a field of the value is a plain emptiness test of that field (== \"\", == 0, len == 0, IsZero, is-set flag) — a guard on a derived value drops some non-empty values")
 
 	rows, problems := w.registryRows()
 	for i, p := range problems {
@@ -372,13 +374,14 @@ func runC01(w *World, r *Report, tier string) {
 	}
 	r.Floor("R7", 3)
 
-	// ---- R8 skip guards
+	// ---- R8 skip guards / R9 emission guards
 	for _, tn := range mnames {
 		mf := marshalOf[tn]
 		T, in := scope[tn]
 		if !in {
 			continue
 		}
+		c01Guards(w, r, tn, mf)
 		isEmit := w.isCallTo("encoding/xml.Encoder.EncodeToken", "encoding/xml.Encoder.EncodeElement", "encoding/xml.Encoder.Encode")
 		var serialised []string
 		et := w.encodeTablesOf(T)
@@ -413,6 +416,53 @@ func runC01(w *World, r *Report, tier string) {
 				r.Ok("R8", cons, "omitted only when every serialised field is empty: "+conds)
 			}
 		})
+	}
+}
+
+// c01Guards — R9.
+func c01Guards(w *World, r *Report, tn string, mf *ssa.Function) {
+	n := 0
+	for _, b := range mf.Blocks {
+		if len(b.Instrs) == 0 {
+			continue
+		}
+		iff, ok := b.Instrs[len(b.Instrs)-1].(*ssa.If)
+		if !ok {
+			continue
+		}
+		c, _ := stripNot(iff.Cond)
+		if x, _, isN := nilCompare(c); isN {
+			if call, _ := callResult(x); call != nil {
+				continue // error test of an encoder call
+			}
+		}
+		cn := w.condNF(c, true)
+		if !strings.Contains(cn, "field:") {
+			continue
+		}
+		n++
+		form := strings.TrimSuffix(strings.TrimSuffix(cn, "=true"), "=false")
+		ok = false
+		fieldRe := `field:[A-Za-z0-9_:]+(\.[A-Za-z0-9_]+)+`
+		for _, pat := range []string{
+			`^eq\("",` + fieldRe + `\)$`,
+			`^eq\(0,` + fieldRe + `\)$`,
+			`^le\(builtin\.len\(` + fieldRe + `\),0\)$`,
+			`^le\(0,builtin\.len\(` + fieldRe + `\)\)$`,
+			`^eq\(0,builtin\.len\(` + fieldRe + `\)\)$`,
+			`^eq\(nil,` + fieldRe + `\)$`,
+			`^time\.Time\.IsZero\(` + fieldRe + `\)$`,
+			`^stanza\.NullableInt\.Get\(` + fieldRe + `\)#1$`,
+		} {
+			if regexpMatch(pat, form) {
+				ok = true
+			}
+		}
+		cons := fmt.Sprintf("%s.MarshalXML#guard:%s", tn, form)
+		r.Check(ok, "R9", cons, w.ipos(iff), "what is written depends on a condition over a derived value of a field ("+form+"), not on the field being empty: some non-empty values are silently dropped (e.g. whitespace-only text) and do not survive a round trip", "plain emptiness test")
+	}
+	if n == 0 {
+		r.Ok("R9", tn+".MarshalXML#guards", "no field-dependent branch")
 	}
 }
 
@@ -551,4 +601,9 @@ func c01Err(w *World, r *Report, un, ma *ssa.Function) {
 		}
 	}
 	r.Check(hasReason && hasText && okText, "R5", "stanza.Err#encode", w.pos(ma.Pos()), fmt.Sprintf("the encoder does not write the condition as an element in the stanzas namespace and the text as <text> character data (%v, text as CharData: %v)", encNames, okText), "condition element + <text>CharData</text> in the stanzas namespace")
+}
+
+func regexpMatch(pat, s string) bool {
+	ok, _ := regexp.MatchString(pat, s)
+	return ok
 }
